@@ -301,8 +301,10 @@ Section Proto.
     | Locked, AChecked =>
         if rerun q then None else
         let o := job_result q g in
+        (* Job.result() sets Job._errored when the stored result is a failure; when the job is (re)executed
+           the flag is cleared again (job.py: "self._errored = False" after the early exit) *)
         let e := match o with Some r => errored r | None => self_err q end in
-        Some (set_pc (if usable o then Hit0 else Miss) (set_view o e q), g)
+        if usable o then Some (set_pc Hit0 (set_view o e q), g) else Some (set_pc Miss (set_view o false q), g)
     | Hit0, AHit => go Hit1 q g
     | Hit1, ARelease => Some (set_pc RelHit q, set_lock (unlock p (lock g)) g)
     (* ---- _populate_filesystem *)
